@@ -443,6 +443,52 @@ def oracle_ctor(cases, impl):
     return out
 
 
+# ---------------------------------------------------------------- C02, pass structure read directly off the stream
+def oracle_passes(cases, impl):
+    """C02 as stated, independent of the executor's exhaustion bookkeeping: after EndForward, every EndReverse closes an
+    adjoint calculation whose Reverse actions covered N-1 .. 0 contiguously, each step once (so no empty pass either);
+    before EndForward no Reverse / EndReverse; EndForward once.  Only complete passes are judged (a trace may be cut)."""
+    out = []
+    for line in cases:
+        if not line.startswith("S stream."):
+            continue
+        info = case_info(line)
+        tr = impl.get(info["cid"])
+        if not tr or tr[0].startswith("CTOR"):
+            continue
+        N = info["N"]
+        seen_ef, pos, npass = 0, None, 0
+        for idx, (a, d) in enumerate(actions_of(tr)):
+            try:
+                p = parse_action(a)
+            except Exception:  # noqa
+                break
+            what = None
+            if p[0] == "EF":
+                seen_ef += 1
+                pos = N
+                if seen_ef > 1:
+                    what = "EndForward emitted twice"
+            elif p[0] == "R":
+                if not seen_ef:
+                    what = "Reverse before EndForward"
+                elif p[1] != pos or not p[2] < p[1]:
+                    what = "Reverse(%d,%d) where the adjoint stands at %s" % (p[1], p[2], pos)
+                else:
+                    pos = p[2]
+            elif p[0] == "ER":
+                if not seen_ef:
+                    what = "EndReverse before EndForward"
+                elif pos != 0:
+                    what = "EndReverse of adjoint calculation %d with the adjoint at step %s, not 0" % (npass + 1, pos)
+                npass += 1
+                pos = N
+            if what:
+                out.append(fail("C02", info, line, what + " (action %d)" % idx, "passes"))
+                break
+    return out
+
+
 # ---------------------------------------------------------------- C18 value checks come from impl.py as VAL lines
 def oracle_values(cases, impl):
     out = []
@@ -502,6 +548,7 @@ def all_findings(cases, impl):
     f += oracle_uses(cases, impl)
     f += oracle_ctor(cases, impl)
     f += oracle_values(cases, impl)
+    f += oracle_passes(cases, impl)
     return f
 
 
